@@ -5,7 +5,8 @@ import ast
 from .. import astutil as A
 from ..callgraph import callgraph
 from ..cfg import cfg_of, within
-from ..dataflow import derives, derives_must, local_defs, reaching
+from ..dataflow import derives, derives_must, expand, local_defs, reaching
+from ..loader import enclosing_stmt
 from .c07 import popped_keys, STRUCTURAL
 
 EXPL = (
@@ -260,6 +261,7 @@ def r09_4(ck):
         cfg = cfg_of(f.node)
         rets = {cfg.node(r) for r in A.walk_no_nested(f.node)
                 if isinstance(r, ast.Return)}
+        lists = set()
         for c in A.calls_in(f.node, '_delete_path'):
             if not A.is_name(A.call_receiver(c), 'self'):
                 continue
@@ -267,35 +269,71 @@ def r09_4(ck):
             p = A.unparse(A.arg_of(c, 0, 'path'))
             apps = []
             cands = []
-            for a in A.calls_in(f.node, 'append'):
-                if A.unparse(A.call_receiver(a)) == 'deletions' and a.args:
-                    cands.append((a, a.args[0]))
+            # the reported list is whatever the function returns: a local
+            # list grown with append/extend/+=, or a list literal
+            lists = set()
+            listnames = {nm for nm, ds in local_defs(f.node).items()
+                         if any(d.kind == 'assign' and isinstance(
+                             d.value, ast.List) for d in ds)}
+            for r in A.walk_no_nested(f.node):
+                if not isinstance(r, ast.Return) or r.value is None:
+                    continue
+                lists |= A.names_in(r.value) & listnames
+                tops = [r.value]
+                if isinstance(r.value, ast.Tuple):
+                    tops = list(r.value.elts)
+                elif isinstance(r.value, ast.Dict):
+                    tops = list(r.value.values)
+                for t in tops:
+                    if isinstance(t, ast.List):
+                        for e2 in t.elts:
+                            cands.append((r, e2))
+            for a in A.calls_in(f.node):
+                if A.call_name(a) in ('append', 'extend') and a.args and \
+                        A.unparse(A.call_receiver(a)) in lists:
+                    arg = a.args[0]
+                    if A.call_name(a) == 'extend' and isinstance(
+                            arg, (ast.List, ast.Tuple)):
+                        for e2 in arg.elts:
+                            cands.append((a, e2))
+                    else:
+                        cands.append((a, arg))
             for s2 in A.walk_no_nested(f.node):
-                if isinstance(s2, ast.Assign) and A.is_name(
-                        s2.targets[0], 'deletions') and isinstance(
+                if isinstance(s2, ast.Assign) and isinstance(
+                        s2.targets[0], ast.Name) and \
+                        s2.targets[0].id in lists and isinstance(
                         s2.value, ast.List) and s2.value.elts:
                     for e2 in s2.value.elts:
                         cands.append((s2, e2))
+                if isinstance(s2, ast.AugAssign) and isinstance(
+                        s2.target, ast.Name) and s2.target.id in lists \
+                        and isinstance(s2.value, (ast.List, ast.Tuple)):
+                    for e2 in s2.value.elts:
+                        cands.append((s2, e2))
             for a, arg in cands:
+                at = enclosing_stmt(a)
                 has_p = derives(f.node, arg, lambda x: A.unparse(x) == p,
-                                at=a)
+                                at=at)
                 has_here = derives(
                     f.node, arg, lambda x: (isinstance(x, ast.Call) and
                                             A.call_name(x) == 'path_for')
-                    or A.is_name(x, 'here'), at=a)
+                    or A.is_name(x, 'here'), at=at)
                 if has_p and has_here:
                     apps.append(cfg.node(a))
-            ok = bool(apps) and cfg.must_pass(cfg.node(c), rets, set(apps))
+            ok = bool(apps) and cfg.must_pass(
+                cfg.node(c), rets - set(apps), set(apps))
             ck.require(ok, 'R09.4', f, c,
                        'the deleted path is reported as an absolute path',
                        'a subtree is removed with _delete_path(%s) but the '
                        'deletion is not reported to the engine: its '
                        'processes would keep running' % p, c)
-        # the list is returned
+        # every exit returns the list (or a list literal)
         for r in A.walk_no_nested(f.node):
             if isinstance(r, ast.Return):
-                ck.require('deletions' in A.names_in(r.value), 'R09.4', f, r,
-                           'the deletions are returned', None, r)
+                ck.require(r.value is not None and (
+                    any(isinstance(x, ast.List) for x in ast.walk(r.value))
+                    or (A.names_in(r.value) & lists)), 'R09.4', f, r,
+                    'the deletions are returned', None, r)
     ck.floor('R09.4', n, 3, 'reporter _delete_path sites')
     dp = ck.fn('Store._delete_path', 'core.store')
     path = A.params_of(dp.node)[1]
